@@ -51,6 +51,183 @@ func readRangeBuilder(info *types.Info, body *ast.BlockStmt, where string, isMin
 	return rb
 }
 
+// jointRangeBuilder: when the builder's only caller — a handler of the dispatch loop — does not
+// hand it its two popped operands as they are but prepares them (the size computed and clamped
+// in the handler, `makeRange(min, size)`), the statements of the handler that precede the call
+// and the builder's body are ONE builder over the handler's operands: the handler's prefix, the
+// binding of the parameters to the arguments, then the body. min is the operand popped second
+// (the left one), max the one popped first. nil when the call passes (min, max) directly.
+func jointRangeBuilder(p *core.Program, info *types.Info, fd *ast.FuncDecl, params []types.Object, sink func(ast.Stmt) (ast.Expr, bool)) *rangeBuilder {
+	fn, _ := info.Defs[fd.Name].(*types.Func)
+	vm, _ := eng.BuildVMModel(p)
+	if fn == nil || vm == nil || vm.Switch == nil {
+		return nil
+	}
+	var calls []*ast.CallExpr
+	for _, ofd := range p.FuncDecls("vm") {
+		if ofd.Body == nil {
+			continue
+		}
+		ast.Inspect(ofd.Body, func(n ast.Node) bool {
+			if c, ok := n.(*ast.CallExpr); ok && eng.CalleeOf(info, c) == fn {
+				calls = append(calls, c)
+			}
+			return true
+		})
+	}
+	if len(calls) != 1 || len(calls[0].Args) != 2 {
+		return nil
+	}
+	call := calls[0]
+	for _, c := range vm.Switch.Body.List {
+		cc := c.(*ast.CaseClause)
+		if !(cc.Pos() <= call.Pos() && call.End() <= cc.End()) {
+			continue
+		}
+		// the operands: locals defined from the pop primitive, in order
+		var popped []types.Object
+		idx := -1
+		for i, st := range cc.Body {
+			if st.Pos() <= call.Pos() && call.End() <= st.End() {
+				idx = i
+				break
+			}
+			as, ok := st.(*ast.AssignStmt)
+			if !ok || len(as.Lhs) != 1 || len(as.Rhs) != 1 {
+				continue
+			}
+			isPop := false
+			ast.Inspect(as.Rhs[0], func(n ast.Node) bool {
+				if pc, ok := n.(*ast.CallExpr); ok {
+					if f := eng.CalleeOf(info, pc); f != nil && vm.Prims[f] == "pop" {
+						isPop = true
+					}
+				}
+				return true
+			})
+			if id, ok := as.Lhs[0].(*ast.Ident); ok && isPop {
+				popped = append(popped, objOf(info, id))
+			}
+		}
+		if idx < 0 || len(popped) != 2 {
+			return nil
+		}
+		maxO, minO := popped[0], popped[1]
+		// an operand: the popped local itself or a local bound once to a conversion of it
+		// (`min := toInt(a)`, `max := vm.pop().(int)`)
+		cdefs := eng.SingleDefs(info, cc)
+		var derives func(e ast.Expr, o types.Object, d int) bool
+		derives = func(e ast.Expr, o types.Object, d int) bool {
+			e = eng.Unparen(e)
+			if d > 4 {
+				return false
+			}
+			switch x := e.(type) {
+			case *ast.Ident:
+				if objOf(info, x) == o {
+					return true
+				}
+				if def := cdefs.Def(info.Uses[x]); def != nil {
+					return derives(def, o, d+1)
+				}
+			case *ast.CallExpr:
+				if len(x.Args) == 1 {
+					return derives(x.Args[0], o, d+1)
+				}
+			case *ast.TypeAssertExpr:
+				return derives(x.X, o, d+1)
+			}
+			return false
+		}
+		isObj := func(o types.Object) func(ast.Expr) bool {
+			return func(e ast.Expr) bool {
+				if _, ok := eng.Unparen(e).(*ast.Ident); !ok {
+					return false
+				}
+				return derives(e, o, 0)
+			}
+		}
+		if isObj(minO)(call.Args[0]) && isObj(maxO)(call.Args[1]) {
+			return nil // the plain form: the builder is a function of (min, max)
+		}
+		var list []ast.Stmt
+		for _, st := range cc.Body[:idx] {
+			// the definitions of the operands themselves are not part of the builder
+			if as, ok := st.(*ast.AssignStmt); ok && len(as.Lhs) == 1 {
+				if id, ok := as.Lhs[0].(*ast.Ident); ok && (isObj(minO)(id) || isObj(maxO)(id)) {
+					continue
+				}
+			}
+			list = append(list, st)
+		}
+		for i, po := range params {
+			id := &ast.Ident{NamePos: call.Args[i].Pos(), Name: po.Name()}
+			info.Uses[id] = po
+			list = append(list, &ast.AssignStmt{Lhs: []ast.Expr{id}, TokPos: call.Args[i].Pos(), Tok: token.ASSIGN, Rhs: []ast.Expr{call.Args[i]}})
+		}
+		list = append(list, fd.Body.List...)
+		body := &ast.BlockStmt{Lbrace: fd.Body.Lbrace, List: list, Rbrace: fd.Body.Rbrace}
+		rb := readRangeBuilder(info, body, core.FuncName("vm", fd)+" as called by its handler", isObj(minO), isObj(maxO), sink)
+		return &rb
+	}
+	return nil
+}
+
+// rangeBuilderVerdict: the four clauses of R2.7 for one builder.
+func rangeBuilderVerdict(b *rangeBuilder) bool {
+	if b == nil || len(b.problems) > 0 || len(b.pos1.Results) == 0 {
+		return false
+	}
+	want := eng.AffConst(1).Add(eng.AffSym("MAX"), 1).Add(eng.AffSym("MIN"), -1)
+	elem := eng.AffSym("MIN").Add(eng.AffSym("I"), 1)
+	for _, res := range b.pos1.Results {
+		if !res.LenOK || !res.Len.Equal(want) || !res.Covered || !res.HasElem || !res.Elem.Equal(elem) {
+			return false
+		}
+	}
+	for _, res := range b.nonpos.Results {
+		if !res.LenOK || !res.Len.IsConst() || res.Len.C != 0 {
+			return false
+		}
+	}
+	return true
+}
+
+// jointRangeVerdict: the run-time range builder takes prepared operands from its handler
+// (used), and handler + builder together deliver min, min+1, …, max for max >= min and the
+// empty slice otherwise (ok).
+func jointRangeVerdict(p *core.Program) (used, ok bool) {
+	vinfo := p.Pkg("vm").TypesInfo
+	for _, fd := range p.FuncDecls("vm") {
+		if fd.Body == nil || fd.Recv != nil || fd.Type.Params == nil || fd.Type.Results == nil || fd.Type.Results.NumFields() != 1 {
+			continue
+		}
+		sl, isSl := vinfo.TypeOf(fd.Type.Results.List[0].Type).(*types.Slice)
+		if !isSl || !types.Identical(sl.Elem(), types.Typ[types.Int]) {
+			continue
+		}
+		var params []types.Object
+		for _, f := range fd.Type.Params.List {
+			for _, nm := range f.Names {
+				params = append(params, vinfo.Defs[nm])
+			}
+		}
+		if len(params) != 2 {
+			continue
+		}
+		jb := jointRangeBuilder(p, vinfo, fd, params, func(st ast.Stmt) (ast.Expr, bool) {
+			if rs, ok := st.(*ast.ReturnStmt); ok && len(rs.Results) == 1 {
+				return rs.Results[0], true
+			}
+			return nil, false
+		})
+		if jb != nil {
+			return true, rangeBuilderVerdict(jb)
+		}
+	}
+	return false, false
+}
+
 func rangeBuilderRule(p *core.Program, r *core.Report) {
 	// run-time builder: the vm function with two int parameters returning []int
 	var rt, ct *rangeBuilder
@@ -79,12 +256,17 @@ func rangeBuilderRule(p *core.Program, r *core.Report) {
 				return ok && objOf(vinfo, id) == o
 			}
 		}
-		rb := readRangeBuilder(vinfo, fd.Body, core.FuncName("vm", fd), is(params[0]), is(params[1]), func(st ast.Stmt) (ast.Expr, bool) {
+		retSink := func(st ast.Stmt) (ast.Expr, bool) {
 			if rs, ok := st.(*ast.ReturnStmt); ok && len(rs.Results) == 1 {
 				return rs.Results[0], true
 			}
 			return nil, false
-		})
+		}
+		if jb := jointRangeBuilder(p, vinfo, fd, params, retSink); jb != nil {
+			rt = jb
+			continue
+		}
+		rb := readRangeBuilder(vinfo, fd.Body, core.FuncName("vm", fd), is(params[0]), is(params[1]), retSink)
 		rt = &rb
 	}
 	// compile-time builder: the optimizer pass under `Operator == ".."` with IntegerNode bounds
